@@ -714,3 +714,88 @@ def final_outputs(bhv, var=None):
     en = {i: rp.live_ev(i).energy_delivered for i in rp.evs}
     return {"stations": out, "energy": en, "t": sim.iteration, "peak": float(sim.peak),
             "evhist": rp.impl_evhist()}
+
+
+# =============================================================================================
+# step(): the second entry point (spec/AcnSimStep.tla)
+class StepReplay(Replay):
+    """Executes a behaviour of AcnSimStep.tla: each `step` record is one call of Simulator.step with the
+    spec's schedule; the periods applied inside the call are compared by Replay.on_post_charging
+    (records `update` / `apply`), the outcome of the call with the `ret` / `typeerror` / `occupied`
+    record that follows."""
+
+    def _build(self):
+        super()._build()
+        mr = self.start["mr"]
+        # step() needs no scheduler; with one, the simulator copies its max_recompute
+        sched = None
+        if mr:
+            sched = BaseAlgorithm()
+            sched.max_recompute = mr
+        self.sim = Simulator(self.net, sched, self.sim.event_queue, START, period=self.T, verbose=False,
+                             store_schedule_history=self.var.store_hist)
+
+    def run(self):
+        with warnings.catch_warnings():
+            warnings.simplefilter("ignore")
+            self._prepare_expected()
+            return self._run_steps()
+
+    def _run_steps(self):
+        from acnportal.acnsim.models import StationOccupiedError
+        while self.cur < len(self.bhv):
+            r = self._consume()
+            if r["a"] != "step":
+                raise Divergence("C01", "script", "step", r["a"], self.cur - 1)
+            sched = self.realise(self.menu[r["m"]])
+            try:
+                done = self.sim.step(sched)
+                outcome = "ret"
+            except TypeError as e:
+                outcome, done = "typeerror", "%s: %s" % (type(e).__name__, e)
+            except StationOccupiedError as e:
+                outcome, done = "occupied", "%s: %s" % (type(e).__name__, e)
+            except Divergence:
+                raise
+            except Exception as e:  # noqa
+                raise Divergence("C01", "step:exception", "no exception", "%s: %s" % (type(e).__name__, e), self.cur - 1)
+            nxt = self._next("ret", "typeerror", "occupied")
+            if nxt is None:
+                raise Divergence("C01", "step:periods", "next spec action %s" % self._peek_kind(),
+                                 "step() returned (%s) at iteration %d" % (outcome, self.sim.iteration), self.cur)
+            self._consume()
+            self._chk("C01", "step:outcome", nxt["a"], outcome if outcome == nxt["a"] else "%s (%s)" % (outcome, done))
+            self._chk("C01", "step:iteration", nxt["t"], self.sim.iteration)
+            if outcome != "ret":
+                continue
+            self._chk("C01", "step:return value (queue empty)", bool(nxt["done"]), bool(done))
+            self._chk("C01", "step:occ", nxt["occ"], self.impl_occ())
+            self._chk("C01", "step:events_processed", nxt["nev"], len(self.sim.event_history))
+            self._chk("C01", "step:queue_len", nxt["qlen"], len(self.sim.event_queue))
+            self._chk("C05", "step:_resolve", bool(nxt["resolve"]), bool(self.sim._resolve))
+            self.compare_pilots(nxt["pilots"], "pilots@step-return")
+            sim = self.sim
+            w = sim.charging_rates.shape[1]
+            for s in range(1, self.ns + 1):
+                j = self.row(s)
+                for k0, e in enumerate(nxt["dE"][s - 1]):
+                    e_impl = float(sim.charging_rates[j, k0]) * self.volt[s - 1] * self.T if k0 < w else 0.0
+                    self._chk("C02", "charging_rates[%s,%d]*V*T@step-return" % (sid(s), k0), e, e_impl, close(e_impl, e))
+            for i in self.evs:
+                ev = self.live_ev(i)
+                self._chk("C02", "energy_delivered[%d]@step-return" % i, nxt["evE"][i - 1], ev.energy_delivered * KWH,
+                          close(ev.energy_delivered * KWH, nxt["evE"][i - 1]))
+            self._chk("C02", "peak@step-return", self.peak_spec(nxt["peakN"]), sim.peak,
+                      close(sim.peak, self.peak_spec(nxt["peakN"])))
+            if sim.schedule_history is not None and self.var.store_hist:
+                self._chk("C04", "schedule_history.keys@step-return", sorted(x[0] for x in nxt["schedHist"]),
+                          sorted(sim.schedule_history))
+        return None
+
+
+def replay_step(bhv, var=None):
+    try:
+        StepReplay(bhv, var).run()
+        return None
+    except Divergence as d:
+        return d
